@@ -458,5 +458,24 @@ def r14_7(ctx):
     return r
 
 
+def r14_8(ctx):
+    """'Inbound ... unauthenticated RTP/RTCP is never delivered': R14.2 shows delivery only behind `unprotect*(..) == Ok`;
+    this is the other half - `Ok` is returned only past an authentication edge (tag comparison true, or the AEAD open's Ok
+    edge), for every profile branch of SrtpContext::unprotect and unprotect_rtcp. An E-flag special case in the GCM SRTCP
+    branch that skips the AEAD open skips the only authentication that profile has. This is rule R05.2 of C05 (same
+    functions, same obligations), claimed here for the inbound clause of C14."""
+    r = RuleResult("R14.8", "K1", "unprotect / unprotect_rtcp return Ok only past an authentication edge")
+    from rules import c05
+    rr = c05.r05_2(ctx)
+    r.scope = rr.scope
+    r.obligations, r.discharged = rr.obligations, rr.discharged
+    r.sites, r.floor = rr.sites, rr.floor
+    r.samples = rr.samples
+    for v in rr.violations:
+        r.violate(v.fn, v.site, v.where, v.msg, v.path)
+        r.obligations -= 1
+    return r
+
+
 def run(ctx):
-    return [r14_1(ctx), r14_2(ctx), r14_3(ctx), r14_4(ctx), r14_5(ctx), r14_6(ctx), r14_7(ctx)]
+    return [r14_1(ctx), r14_2(ctx), r14_3(ctx), r14_4(ctx), r14_5(ctx), r14_6(ctx), r14_7(ctx), r14_8(ctx)]
